@@ -3,6 +3,9 @@ import EoVerif.Model.PyOps
 namespace EoVerif.SrcTie
 open EoVerif
 
+/-- a model byte string as the translated source sees it (Python ints) -/
+def ofBytes (bs : Bytes) : List Int := bs.map Int.ofNat
+
 /-- a `for i in range(len(xs))` loop that rewrites position `i` from its old value only is a `map` -/
 theorem map_loop (P : Int → Prop) (f : Int → Int) (body : Int → List Int → Py.M (List Int × Bool))
     (hbody : ∀ (done : List Int) (c : Int) (rest : List Int), P c →
